@@ -44,8 +44,7 @@ theorem failSession_ok (c : Cfg) (s : St) (h : Ok c s) : Ok c (failSession c s).
   · exact h
   · have h1 := sendSession_ok c s { id := c.sid, from_ := c.node, to := s.remote, state := .failed, hasReason := true }
       (by simp) h
-    simp only
-    split <;> simpa [Ok, encRev] using h1
+    simpa [Ok, encRev] using h1
 
 theorem recvSession_ok (c : Cfg) (s : St) (h : Ok c s) : Ok c (recvSession c s).2 := by
   rcases recvSession_cases c s with ⟨x, _, ht⟩ | ⟨_, ht | ⟨r, _, ht⟩⟩
